@@ -189,6 +189,154 @@ def applyMat (d : Nat) (M : Mat α) (x : Nat → α) : Nat → α := fun i =>
 def isometrizeMetric (temporal : Bool) (d : Nat) (angles anis : List α) (x : Nat → α) : Nat → α :=
   applyMat d (matIsometrize d (modelAngles false temporal d angles) anis) x
 
+/-- `matrix_rotate(dim, angles)`: `result = G(plane_i, (-1)^i · angle_i) · result`, left to right -/
+def rotate (d : Nat) (angles : List α) : Mat α :=
+  (((angles.zip (planes d)).zipIdx).foldl
+    (fun (res : Mat α) (q : (α × (Nat × Nat)) × Nat) => matmul d (givens q.1.2 (altSign q.2 * q.1.1)) res) eye)
+
+/-- `matrix_anisotropify(dim, anis)` = `diag(1, anis…)` -/
+def anisotropify (anis : List α) : Mat α := fun i j =>
+  if i = j then (if i = 0 then ((1:Nat):α) else anis.getD (i - 1) ((1:Nat):α)) else ((0:Nat):α)
+
+/-- `matrix_anisometrize(dim, angles, anis)` -/
+def matAnisometrize (d : Nat) (angles anis : List α) : Mat α :=
+  matmul d (rotate d angles) (anisotropify anis)
+
+/-! ### setters: in-place histories of a lat-lon / temporal / plain `CovModel`
+
+`covmodel/tools.py`: `set_len_anis(dim, len_scale, anis, latlon)`, `set_model_angles(dim, angles, latlon, temporal)`,
+`set_dim(model, dim)`; `covmodel/base.py`: the `dim`, `len_scale`, `anis`, `angles` setters.  `latlon`, `temporal`
+and `geo_scale` cannot be changed after construction.  A setter that raises leaves the model as it was. -/
+
+/-- `set_angles(dim, angles)`: cut to `no_of_angles(dim)` entries, pad behind with `0` -/
+def setAngles (dim : Nat) (angles : List α) : List α :=
+  let a := angles.take (noa dim)
+  a ++ List.replicate (noa dim - a.length) ((0:Nat):α)
+
+/-- `set_anis(dim, anis)`: cut to `dim - 1` entries, pad in front with `1` -/
+def setAnis (dim : Nat) (anis : List α) : List α :=
+  let a := anis.take (dim - 1)
+  List.replicate (dim - 1 - a.length) ((1:Nat):α) ++ a
+
+/-- `set_model_angles(dim, angles, latlon, temporal)` on what the caller wrote -/
+def setModelAngles (latlon temporal : Bool) (dim : Nat) (angles : List α) : List α :=
+  modelAngles latlon temporal dim (setAngles dim angles)
+
+/-- `set_len_anis(dim, len_scale, anis, latlon)`: one length scale keeps (pads / cuts) the ratios, several (edge padded
+    to `dim`) redefine them as `l[i] / l[0]`; every ratio must be `> 0` (`ValueError`); lat-lon: the two spatial
+    ratios are forced to `1` afterwards, the time ratio stays -/
+def setLenAnis (latlon : Bool) (dim : Nat) (lenScale anis : List α) : Except String (α × List α) :=
+  match lenScale.take dim with
+  | [] => .error "IndexError"
+  | l0 :: rest =>
+    let outAnis :=
+      if rest.length = 0 then setAnis dim anis
+      else
+        let ls := (l0 :: rest) ++ List.replicate (dim - (rest.length + 1)) ((l0 :: rest).getLastD l0)
+        (List.range' 1 (dim - 1)).map fun i => ls.getD i l0 / l0
+    if outAnis.all (fun a => decide (((0:Nat):α) < a)) then .ok (l0, modelAnis latlon outAnis) else .error "ValueError"
+
+/-- what the geometry of a model object depends on -/
+structure MS (α : Type) where
+  latlon : Bool
+  temporal : Bool
+  dim : Nat
+  lenScale : α
+  anis : List α
+  angles : List α
+
+inductive MOp (α : Type) where
+  | setAnis (v : List α)
+  | setAngles (v : List α)
+  | setLenScale (v : List α)
+  | setDim (d : Nat)
+
+/-- `CovModel.__init__`: `set_dim` (lat-lon forces 3 (+1)), `set_len_anis`, `set_model_angles`; `dim` is the full
+    dimension (`spatial_dim + 1` for temporal models) -/
+def msInit (latlon temporal : Bool) (dim : Nat) (ls anis angles : List α) : Except String (MS α) :=
+  let d := modelDim latlon temporal dim
+  if d < 1 then .error "ValueError" else
+  match setLenAnis latlon d ls anis with
+  | .error e => .error e
+  | .ok (l0, an) => .ok ⟨latlon, temporal, d, l0, an, setModelAngles latlon temporal d angles⟩
+
+/-- one setter call.  `set_dim` re-pads the ratios with `set_len_anis(dim, len_scale, anis)` (without the lat-lon flag:
+    the dimension of a lat-lon model cannot change, so nothing moves) and re-normalises the angles with
+    `set_model_angles(dim, angles, latlon, temporal)` — a spatial plane of the old dimension can be a space-time
+    plane of the new one and is then zeroed. -/
+def msStep (s : MS α) : MOp α → Except String (MS α)
+  | .setAnis v =>
+    match setLenAnis s.latlon s.dim [s.lenScale] v with
+    | .error e => .error e
+    | .ok (l0, an) => .ok { s with lenScale := l0, anis := an }
+  | .setAngles v => .ok { s with angles := setModelAngles s.latlon s.temporal s.dim v }
+  | .setLenScale v =>
+    match setLenAnis s.latlon s.dim v s.anis with
+    | .error e => .error e
+    | .ok (l0, an) => .ok { s with lenScale := l0, anis := an }
+  | .setDim d =>
+    let d' := modelDim s.latlon s.temporal d
+    if d' < 1 then .error "ValueError" else
+    match setLenAnis false d' [s.lenScale] s.anis with
+    | .error e => .error e
+    | .ok (l0, an) =>
+      .ok { s with dim := d', lenScale := l0, anis := an, angles := setModelAngles s.latlon s.temporal d' s.angles }
+
+def msStepKeep (s : MS α) (op : MOp α) : MS α × String :=
+  match msStep s op with
+  | .ok s' => (s', "ok")
+  | .error e => (s, e)
+
+/-- the states a history walks through, with the status of every call -/
+def msRun (s : MS α) : List (MOp α) → List (MS α × String)
+  | [] => []
+  | op :: rest => let r := msStepKeep s op; r :: msRun r.1 rest
+
+def msFinal (s : MS α) (ops : List (MOp α)) : MS α := ops.foldl (fun st op => (msStepKeep st op).1) s
+
+/-! numpy arrays are data, not closures: the loops of `matrix_rotate` / `matrix_derotate` keep their running `result`
+as a table.  `derotateA` … are the same loops as `derotate` … with the `d × d` block materialised after every step
+(`Lemmas/LatLon.lean`: they agree with the closure forms on the block); the driver runs these. -/
+
+/-- materialise the `d × d` block of `f` row-major -/
+def tabArr (d : Nat) (f : Mat α) : Array α :=
+  Array.ofFn (n := d * d) fun k => f (k.val / d) (k.val % d)
+
+/-- read a `d × d` row-major table -/
+def ofArr (d : Nat) (a : Array α) : Mat α :=
+  fun i j => if h : j < d ∧ j + i * d < a.size then a[j + i * d]'h.2 else ((0:Nat):α)
+
+def derotateA (d : Nat) (angles : List α) : Array α :=
+  (((angles.zip (planes d)).zipIdx).foldl
+    (fun (res : Array α) (q : (α × (Nat × Nat)) × Nat) =>
+      tabArr d (matmul d (ofArr d res) (givens q.1.2 (altSign q.2 * (-q.1.1))))) (tabArr d eye))
+
+def rotateA (d : Nat) (angles : List α) : Array α :=
+  (((angles.zip (planes d)).zipIdx).foldl
+    (fun (res : Array α) (q : (α × (Nat × Nat)) × Nat) =>
+      tabArr d (matmul d (givens q.1.2 (altSign q.2 * q.1.1)) (ofArr d res))) (tabArr d eye))
+
+def matIsometrizeA (d : Nat) (angles anis : List α) : Array α :=
+  tabArr d (matmul d (isotropify anis) (ofArr d (derotateA d angles)))
+
+def matAnisometrizeA (d : Nat) (angles anis : List α) : Array α :=
+  tabArr d (matmul d (ofArr d (rotateA d angles)) (anisotropify anis))
+
+/-- `CovModel.isometrize` of the CURRENT state for a list of points, each given by its (up to four) coordinates
+    (`lat, lon[, t]` for lat-lon models) -/
+def msIsometrize (R : α) (s : MS α) (xs : List (Nat → α)) : List (List α) :=
+  if s.latlon then xs.map fun x => isometrizeLL R s.temporal s.anis (x 0) (x 1) (x 2)
+  else
+    let M := matIsometrizeA s.dim s.angles s.anis
+    xs.map fun x => tab (applyMat s.dim (ofArr s.dim M) x) s.dim
+
+/-- `CovModel.anisometrize` of the CURRENT state -/
+def msAnisometrize (R : α) (s : MS α) (xs : List (Nat → α)) : List (List α) :=
+  if s.latlon then xs.map fun x => anisometrizeLL R s.temporal s.anis ⟨x 0, x 1, x 2⟩ (x 3)
+  else
+    let M := matAnisometrizeA s.dim s.angles s.anis
+    xs.map fun x => tab (applyMat s.dim (ofArr s.dim M) x) s.dim
+
 /-! ### kriging assembly on isometrized positions (covariance block only) -/
 
 /-- entry `(i, j)` of the covariance block of the kriging matrix for lat-lon conditioning points:
@@ -393,6 +541,32 @@ def ops (op : String) (j : Json) : Option (Except String Json) :=
       let rhs := (List.range n).map fun i => (List.range nt).map fun k =>
         krigeRhsLL (expCov var len) R temporal anis.toList la lo ti tlat[k]! tlon[k]! (tt.getD k 0.0) i
       return Json.arr #[fl2 mat, fl2 rhs])
+  | "ll_hist" => some (do
+      -- constructor + setter history of a lat-lon / temporal / plain model; after every step: status, state, isometrize of
+      -- the points `pos` and anisometrize of the points `q` (both 4 × n row-major tables, first rows used)
+      let latlon ← getBool j "latlon"; let temporal ← getBool j "temporal"; let dim ← getNat j "dim"
+      let R ← getF j "R"
+      let ls ← getFloats j "len_scale"; let anis ← getFloats j "anis"; let angles ← getFloats j "angles"
+      let n ← getNat j "n"; let pos ← getFloats j "pos"; let q ← getFloats j "q"
+      let ov ← j.getObjVal? "ops"
+      let oa ← ov.getArr?
+      let ops ← oa.mapM fun o => do
+        let k ← getStr o "k"
+        match k with
+        | "anis" => do let v ← getFloats o "v"; pure (MOp.setAnis v.toList)
+        | "angles" => do let v ← getFloats o "v"; pure (MOp.setAngles v.toList)
+        | "len" => do let v ← getFloats o "v"; pure (MOp.setLenScale v.toList)
+        | "dim" => do let d ← getNat o "d"; pure (MOp.setDim d)
+        | _ => throw s!"unknown history op {k}"
+      match msInit latlon temporal dim ls.toList anis.toList angles.toList with
+      | .error e => return Json.str e
+      | .ok s0 =>
+        let obs (st : MS Float) (status : String) : Json :=
+          let iso := msIsometrize R st ((List.range n).map fun c => fun i => pos.getD (i * n + c) 0.0)
+          let ani := msAnisometrize R st ((List.range n).map fun c => fun i => q.getD (i * n + c) 0.0)
+          Json.arr #[Json.str status, Json.num (JsonNumber.fromNat st.dim), fbits st.lenScale, fl st.anis, fl st.angles,
+            fl2 iso, fl2 ani]
+        return Json.arr ((obs s0 "ok") :: (msRun s0 ops.toList).map fun r => obs r.1 r.2).toArray)
   | "ll_fitlag" => some (do
       let R ← getF j "R"; let latlon ← getBool j "latlon"; let x ← getFloats j "x"
       return fl (x.toList.map (fitLag latlon R)))
